@@ -193,7 +193,10 @@ def plans_for(b, rng, nflip):
                         flips.append({"el": cn, "field": "key", "region": "xy"})
                     else:
                         es["key"] = "offcurve"
-        return {"spec": sp, "flips": flips, "clocks": list(b["clks"]) if sp["timeline"] else None}
+        tz = b.get("tz", "utc")
+        if tz != "utc":
+            sp["time_edge"] = True      # an offset matters where the clock is a step from a boundary
+        return {"spec": sp, "flips": flips, "clocks": list(b["clks"]) if sp["timeline"] else None, "tz": tz}
 
     plans = [mk(False)]
     if flippable:
@@ -290,25 +293,51 @@ def reported_values(value):
 EMPTY_VALUES = {"custom": [], "quote": [], "fields": {}, "dict_fields": {}}
 
 
-def observe(cert, root_pem, target, scratch, tag, via_file=True, pre_root_pem=None, clock=None):
-    """`clock` (ISO string or datetime): run the code with `datetime.now()` of admin.certificate_v2
-    frozen at that instant (boundary validity windows); None = the wall clock."""
-    if clock is None:
-        return _observe(cert, root_pem, target, scratch, tag, via_file, pre_root_pem)
-    import datetime as _dt
-    import admin.certificate_v2 as cv2
-    instant = _dt.datetime.fromisoformat(clock) if isinstance(clock, str) else clock
-    real = cv2.datetime
+# The UTC offset of the machine the validator runs on (an environment choice): name -> (hours east of
+# UTC, POSIX TZ string - whose sign is the other way round)
+MACHINE_TZ = {"utc": (0, "UTC0"), "m8": (-8, "PST8"), "p9": (9, "JST-9"), "p14": (14, "<+14>-14"),
+              "m12": (-12, "<-12>12")}
+_CURRENT_TZ = ["utc"]
 
-    class FrozenDateTime(real):
-        @classmethod
-        def now(cls, tz=None):
-            return instant if tz is not None else instant.replace(tzinfo=None)
-    cv2.datetime = FrozenDateTime
-    try:
-        return _observe(cert, root_pem, target, scratch, tag, via_file, pre_root_pem)
-    finally:
-        cv2.datetime = real
+
+class machine_tz:
+    """Run a block as on a machine in that time zone: TZ + time.tzset() (so the REAL datetime.now() gives
+    that local time) and the same offset for the frozen clock; restored afterwards."""
+
+    def __init__(self, name):
+        self.name = name or "utc"
+
+    def __enter__(self):
+        import time
+        self.old_env = os.environ.get("TZ")
+        self.old_name = _CURRENT_TZ[0]
+        os.environ["TZ"] = MACHINE_TZ[self.name][1]
+        time.tzset()
+        _CURRENT_TZ[0] = self.name
+
+    def __exit__(self, *a):
+        import time
+        if self.old_env is None:
+            os.environ.pop("TZ", None)
+        else:
+            os.environ["TZ"] = self.old_env
+        time.tzset()
+        _CURRENT_TZ[0] = self.old_name
+        return False
+
+
+def observe(cert, root_pem, target, scratch, tag, via_file=True, pre_root_pem=None, clock=None, tz=None):
+    """`clock` (ISO string or datetime): run the code with `datetime.now()` of admin.certificate_v2
+    frozen at that instant (boundary validity windows); None = the wall clock.  `tz`: the machine's
+    time zone (key of MACHINE_TZ)."""
+    import datetime as _dt
+    instant = _dt.datetime.fromisoformat(clock) if isinstance(clock, str) else clock
+    with machine_tz(tz):
+        undo = _freeze(instant)
+        try:
+            return _observe(cert, root_pem, target, scratch, tag, via_file, pre_root_pem)
+        finally:
+            undo()
 
 
 def _observe(cert, root_pem, target, scratch, tag, via_file=True, pre_root_pem=None):
@@ -376,10 +405,20 @@ def _freeze(instant):
     if instant is None:
         return lambda: None
 
+    import datetime as _dt
+    hours = MACHINE_TZ[_CURRENT_TZ[0]][0]
+
     class FrozenDateTime(real):
+        """Faithful to datetime.now: without tz the naive LOCAL time of the machine, with tz the aware
+        time in that zone - both denoting the frozen instant."""
         @classmethod
         def now(cls, tz=None):
-            return instant if tz is not None else instant.replace(tzinfo=None)
+            if tz is not None:
+                return instant.astimezone(tz)
+            try:
+                return (instant.astimezone(_dt.timezone.utc) + _dt.timedelta(hours=hours)).replace(tzinfo=None)
+            except OverflowError:       # local time beyond year 1 / 9999 cannot be expressed
+                return instant.astimezone(_dt.timezone.utc).replace(tzinfo=None)
     cv2.datetime = FrozenDateTime
 
     def undo():
@@ -412,7 +451,14 @@ def _ask(c, root, target):
 
 
 def observe_history(cert, root_pem, target, scratch, tag, instants, via_file=True, alt_root_pem=None,
-                    requery=()):
+                    requery=(), tz=None):
+    with machine_tz(tz):
+        return _observe_history(cert, root_pem, target, scratch, tag, instants, via_file, alt_root_pem,
+                                requery)
+
+
+def _observe_history(cert, root_pem, target, scratch, tag, instants, via_file=True, alt_root_pem=None,
+                     requery=()):
     """The SAME loaded certificate object and the SAME root-of-trust element object are asked once per
     entry of `instants` (ISO string = clock of admin.certificate_v2 frozen there, None = wall clock).
     In the rounds listed in `requery` the certificate object is first asked about `alt_root_pem`.
@@ -481,22 +527,23 @@ def _run_task(task):
     if plan.get("clocks") and mat.get("clocks"):
         return _run_history(tid, plan, meta, scratch, cert, root_pem, mat, abstract, applied)
     clock = mat.get("clock").isoformat() if mat.get("clock") is not None else None
+    tz = plan.get("tz") or "utc"
     obs = observe(cert, root_pem, abstract["target"], scratch, "t%d" % tid, via_file=(tid % 5 != 4),
-                  clock=clock)
+                  clock=clock, tz=tz)
     t = {"id": tid, "cert": abstract["cert"], "rot": abstract["rot"], "target": abstract["target"],
          "loaded": obs["loaded"], "valid": obs["valid"], "failing": obs["failing"],
          "reported": obs["reported"],
          "signed": signed_values(mat) if obs["valid"] else EMPTY_VALUES,
          "unspecified": abstract["unspecified"], "exc": obs["exc"], "applied": applied,
-         "meta": dict(meta, frozen_clock=clock is not None),
+         "meta": dict(meta, frozen_clock=clock is not None, tz=tz),
          "concrete": zlib.compress(json.dumps({"certificate": cert, "root_pem": root_pem,
-                                               "clock": clock}).encode())}
+                                               "clock": clock, "tz": tz}).encode())}
     # the same question put to an object that was first asked about another root of trust
     roots = mat.get("root_pem") if isinstance(mat, dict) else None
     if isinstance(roots, dict) and roots.get("right") and roots.get("fresh"):
         alt = roots["fresh"] if root_pem == roots["right"] else roots["right"]
         obs2 = observe(cert, root_pem, abstract["target"], scratch, "q%d" % tid, via_file=False,
-                       pre_root_pem=alt, clock=clock)
+                       pre_root_pem=alt, clock=clock, tz=tz)
         if (obs2["loaded"], obs2["valid"], obs2["reported"]) != (obs["loaded"], obs["valid"], obs["reported"]):
             t2 = dict(t)
             t2.update(id=tid + 50000000, loaded=obs2["loaded"], valid=obs2["valid"], failing=obs2["failing"],
@@ -523,7 +570,8 @@ def _run_history(tid, plan, meta, scratch, cert, root_pem, mat, abstract, applie
     alt = roots["fresh"] if root_pem == roots["right"] else roots["right"]
     requery = [i for i in range(len(ks)) if (tid + i) % 2 == 1]
     obss = observe_history(cert, root_pem, abstract["target"], scratch, "h%d" % tid, instants,
-                           via_file=(tid % 5 != 4), alt_root_pem=alt, requery=requery)
+                           via_file=(tid % 5 != 4), alt_root_pem=alt, requery=requery,
+                           tz=plan.get("tz") or "utc")
     traces = []
     for i, (k, obs) in enumerate(zip(ks, obss)):
         ab = certv2.retime(mat, abstract, k)
@@ -533,10 +581,11 @@ def _run_history(tid, plan, meta, scratch, cert, root_pem, mat, abstract, applie
             "reported": obs["reported"], "signed": signed_values(mat) if obs["valid"] else EMPTY_VALUES,
             "unspecified": ab["unspecified"], "exc": obs["exc"], "applied": applied,
             "meta": dict(meta, frozen_clock=instants[i] is not None, round=i + 1, instants=ks[:i + 1],
-                         requery=i in requery),
+                         requery=i in requery, tz=plan.get("tz") or "utc"),
             "concrete": zlib.compress(json.dumps({
                 "certificate": cert, "root_pem": root_pem, "history": instants[:i + 1],
-                "alt_root_pem": alt, "requery": [r for r in requery if r <= i]}).encode())})
+                "alt_root_pem": alt, "requery": [r for r in requery if r <= i],
+                "tz": plan.get("tz") or "utc"}).encode())})
     t = traces[0]
     t["history_outcomes"] = ["valid" if x["valid"] else ("invalid" if x["loaded"] else "loaderror")
                              for x in traces]
@@ -718,7 +767,7 @@ def random_plan(rng):
         for ex in sp["extra"]:
             ex["window"] = {"Valid": "all", "Expired": "until1", "NotYet": "from3"}[ex.get("time", "Valid")]
     # RSA issuers of X.509 elements are outside what C07 exercises (see plans_for)
-    return {"spec": sp, "flips": flips, "clocks": clocks}
+    return {"spec": sp, "flips": flips, "clocks": clocks, "tz": rng.choice(("utc", "utc") + tuple(MACHINE_TZ))}
 
 
 def rsa_issues_x509(plan):
@@ -742,7 +791,7 @@ def rsa_issues_x509(plan):
 # ------------------------------------------------------------------------------------------------
 # the check
 # ------------------------------------------------------------------------------------------------
-SYS_ACTIONS = ("Mutate", "MutateName", "Stretch", "Start", "ParseStep", "Build", "Walk", "Tick")
+SYS_ACTIONS = ("Mutate", "MutateName", "Stretch", "Shift", "Start", "ParseStep", "Build", "Walk", "Tick")
 
 
 def payload_of(t):
@@ -882,7 +931,7 @@ def run(ctx):
     res.add_tlc(rg, "Gen_CertV2 certificates")
     uniq = {}
     for b in behaviours:
-        uniq.setdefault(json.dumps([b["cert"], b["rot"], b["clks"], b["scale"]], sort_keys=True), b)
+        uniq.setdefault(json.dumps([b["cert"], b["rot"], b["clks"], b["scale"], b["tz"]], sort_keys=True), b)
     behaviours = [uniq[k] for k in sorted(uniq)]
     res.coverage["behaviours_generated"] = len(behaviours)
     res.coverage["clock_histories_generated"] = sum(1 for b in behaviours if len(b["clks"]) > 1)
@@ -904,12 +953,13 @@ def run(ctx):
             return (b["ndef"] <= 1
                     or (b["nren"] == 0 and b["outcome"] == "valid" and not time_sensitive(b))
                     or (b["nren"] == 1 and timedef(b) and plain(b) and b["clks"] == [2, 1])
-                    or (b["scale"] == "extreme" and plain(b)))      # edge dates x every window defect
+                    or (b["scale"] == "extreme" and plain(b))       # edge dates x every window defect
+                    or (b["tz"] in ("m8", "p14") and plain(b)))     # machine UTC offset x every window defect
         must = [b for b in behaviours if is_must(b)]
         rest = [b for b in behaviours if not is_must(b)]
         ctx.rng.shuffle(rest)
         rt = [b for b in rest if b["nren"] == 1 and timedef(b)][:100]
-        nl = [b for b in rest if b["outcome"] != "loaderror" and not (b["nren"] == 1 and timedef(b))][:700]
+        nl = [b for b in rest if b["outcome"] != "loaderror" and not (b["nren"] == 1 and timedef(b))][:500]
         le = [b for b in rest if b["outcome"] == "loaderror"][:150]
         chosen = must + rt + nl + le
         nflip = 3
@@ -917,7 +967,7 @@ def run(ctx):
         # every certificate; of the four clock histories of a time-sensitive certificate with more than
         # one deviation, one (seeded); all four for single deviations and for the edge-date scale
         def keep(b):
-            if b["ndef"] <= 1 or len(b["clks"]) == 1 or b["scale"] == "extreme":
+            if b["ndef"] <= 1 or len(b["clks"]) == 1 or b["scale"] == "extreme" or b["tz"] != "utc":
                 return True
             # (the certificate is the same in all four records except for the time classes at the
             # last instant: key on what does not change)
@@ -1038,6 +1088,7 @@ def run(ctx):
     res.coverage["unexpected_exceptions"] = sorted({t["exc"] for t in all_traces
                                                     if t["exc"] and t["exc"].startswith("validate")})[:5]
     res.coverage["validations_after_clock_moved"] = sum(1 for t in all_traces if t["meta"].get("round", 1) > 1)
+    res.coverage["runs_with_machine_utc_offset"] = sum(1 for t in all_traces if t["meta"].get("tz", "utc") != "utc")
     res.coverage["frozen_clock_boundary_runs"] = sum(1 for t in all_traces if t["meta"].get("frozen_clock"))
     res.coverage["noncanonical_naming_certificates"] = sum(
         1 for t in all_traces if any(e.get("naming", "canon") not in ("canon", "na") for e in t["cert"].values()))
@@ -1060,10 +1111,10 @@ def replay(ctx, path):
     if cc.get("history"):
         obs = observe_history(cc["certificate"], cc["root_pem"], ab["target"], ctx.scratch, "replay",
                               cc["history"], alt_root_pem=cc.get("alt_root_pem"),
-                              requery=cc.get("requery") or ())[-1]
+                              requery=cc.get("requery") or (), tz=cc.get("tz"))[-1]
     else:
         obs = observe(cc["certificate"], cc["root_pem"], ab["target"], ctx.scratch, "replay",
-                      clock=cc.get("clock"))
+                      clock=cc.get("clock"), tz=cc.get("tz"))
     t = {"id": 1, "cert": ab["cert"], "rot": ab["rot"], "target": ab["target"], "loaded": obs["loaded"],
          "valid": obs["valid"], "failing": obs["failing"], "reported": obs["reported"],
          "signed": rp["signed"] if obs["valid"] else EMPTY_VALUES}
